@@ -1,5 +1,5 @@
 """C11 - MultitaskMultivariateNormal: one joint distribution regardless of layout, constructor or index.
-Spec: MTMVN.tla (+ PyIndex.tla), MTLayout.tla."""
+Spec: MTMVN.tla (+ PyIndex.tla), MTLayout.tla, MTCtor.tla (constructors: checks/c11_ctor.py)."""
 import itertools
 import os
 
@@ -256,13 +256,21 @@ def run(ck):
     ck.extra["pinned_variant_predictions"] = preds
     results = core.pmap(_worker, items, chunksize=1)
     ck.absorb(results)
-    from checks import c11_layout
+    from checks import c11_layout, c11_ctor
     c11_layout.run(ck)
+    c11_ctor.run(ck)
+    ck.rule += ("; constructors (MTCtor.tla) = from_batch_mvn on every batch shape of rank 1-4 (all shapes over 1..3 up to rank 3, all-equal and pairwise "
+                "distinct sizes at rank 4) x every task_dim in -(rank+1)..rank, from_repeated_mvn on batch rank 0-3, from_independent_mvns with equal and "
+                "broadcast batch shapes; compared per batch member (mean labels exact, covariance, log_prob)")
+    ck.assumptions.append("a task_dim that names no batch dimension (task_dim = rank or < -rank) must raise: the constructor has no denotation for it")
 
 
 def replay(rep):
     core.setup_torch()
     case = rep["case"]
+    if "ctor_case" in case:
+        from checks import c11_ctor
+        return c11_ctor.replay(rep)
     if "chain" not in case:
         from checks import c11_layout
         return c11_layout.replay(rep)
